@@ -291,7 +291,7 @@ def c06(run, op, ctx, before, after, changed):
             continue
         seen = {}
         for n, m in sorted(o.members.items()):
-            if not n.endswith(".ics") or m.get("body") is None:
+            if not (n.endswith(".ics") or path + n in run.post_cal) or m.get("body") is None:
                 continue
             u = icalparse.first_uid(m["body"])
             if u is None:
@@ -308,7 +308,7 @@ def c06(run, op, ctx, before, after, changed):
     name = op.get("name")
     if op["op"] == "put" and not (name or "").endswith(".ics"):
         return
-    if op["op"] == "post" and op.get("ctype") != "text/calendar":
+    if op["op"] == "post" and (op.get("ctype") or "").split(";")[0].strip() != "text/calendar":
         return
     uid = icalparse.first_uid(ctx["body"])
     if uid is None:
@@ -318,7 +318,7 @@ def c06(run, op, ctx, before, after, changed):
         return
     holders = []
     for n, m in ob.members.items():
-        if n == name or not n.endswith(".ics") or m.get("body") is None:
+        if n == name or not (n.endswith(".ics") or coll + n in run.post_cal) or m.get("body") is None:
             continue
         if icalparse.first_uid(m["body"]) == uid:
             holders.append(n)
